@@ -225,6 +225,14 @@ Definition check_ei (s : bytes) : bool :=
   | _ => false
   end.
 
+(* the additional white space after ID that is skipped for the ASCII filters (not comments):
+   the rest and the last byte skipped (0: none) *)
+Fixpoint skip_sp_last (last : byte) (s : bytes) : bytes * byte :=
+  match s with
+  | b :: r => if is_space b then skip_sp_last b r else (s, last)
+  | [] => ([], last)
+  end.
+
 (* the search for EOL "EI" delimiter; acc: data so far, newest first; prev: previous byte *)
 Fixpoint ei_loop (acc : bytes) (prev : byte) (s : bytes) : cres bytes :=
   if max_img_bytes <=? blen acc then CParse s
@@ -346,7 +354,7 @@ with read_value_arr (L : limits) (fuel : nat) (depth : N) (acc : list obj) (s : 
     | Ok s1 =>
       match s1 with
       | b :: r =>
-        if b =? cRB then COk (match acc with [] => ONilArr | _ => OArr (rev acc) end) r
+        if b =? cRB then COk (OArr (rev acc)) r
         else if max_arr L <=? N.of_nat (length acc) then CParse s1
         else
           match read_value L f depth s1 with
@@ -400,8 +408,8 @@ Definition read_inline_image (L : limits) (s : bytes) : cres cop :=
       let len := img_int d k_L k_Length in
       (* one white-space byte after ID *)
       let s2 := match s1 with b :: r => if is_space b then r else s1 | [] => [] end in
-      let s3r := if img_filter_ascii d then skip_ws s2 else Ok s2 in
-      match s3r with
+      let '(s3, prev0) := if img_filter_ascii d then skip_sp_last 0 s2 else (s2, 0) in
+      match (if img_filter_ascii d then (match s3 with [] => Err EOF | _ => Ok s3 end) else Ok s3) with
       | Err _ => CStop
       | Ok s3 =>
         let body :=
@@ -416,7 +424,7 @@ Definition read_inline_image (L : limits) (s : bytes) : cres cop :=
                 | Ok s5 => COk data s5
                 end
               end
-          else ei_loop [] 0 s3 in
+          else ei_loop [] prev0 s3 in
         match body with
         | CParse rest => CParse rest | CStop => CStop | CFuel => CFuel
         | COk data s6 =>
